@@ -792,6 +792,14 @@ func (fe *FuncEnc) doUnOp(f *Frame, x *ssa.UnOp, st *State, path Term) {
 		nv := f.vals[x]
 		fe.assume(path, fe.wf(nv, x.Type(), st))
 		fe.cellAssume(f, a, nv, st, path)
+		if a.Kind == aGlobal && f.fn.Name() != "init" {
+			for _, gi := range fe.eng.globalinvs {
+				if gi.Comp == a.Comp {
+					fe.assume(path, fe.evalCellInv(gi, nv, x.Type(), st))
+					fe.assumes["package variable "+a.Comp+" keeps the value given by its initializer (checked: no function other than init writes it or the map it holds)"] = true
+				}
+			}
+		}
 	case token.NOT:
 		fe.setVal(x, tNot(fe.val(x.X)))
 	case token.SUB:
